@@ -115,7 +115,23 @@ META = {
               "unknown; through get_chip_info (x, y from a block) and read "
               "(by keyword); thorough adds 12x12 root (4,8), 24x24 root "
               "(1,0), 36x24 root (8,4), 48x24 root (0,0), the sets none / "
-              "root board only / one other board, write and send_scp.  "
+              "root board only / one other board, write and send_scp.  Unit "
+              "'connection history' (24x12 root (7,3); thorough adds 24x24 "
+              "root (0,0); 12 units each): commands to the same symbolic "
+              "(x, y) interleaved with changes of mc.connections made as "
+              "discover_connections makes them -- call, add, call, replace, "
+              "call, remove, call and add, call, remove, call, add, call -- "
+              "for the root board's connection (nothing else registered) "
+              "and for each of its two triad neighbours (all other boards "
+              "registered); every call is held against the connections "
+              "registered at the time it is sent.  Unit "
+              "'discover_connections 12x12': the real discover_connections "
+              "(once, or twice) against a 12x12 three-board model whose "
+              "Ethernet chips (0,0), (4,8), (8,4) report link up and an IP "
+              "address; result 3 (then 0), connections exactly those three, "
+              "each trial sver travels over the new connection, then "
+              "get_chip_info / read to a symbolic (x, y) anywhere in the "
+              "machine travels over its board's discovered connection.  "
               "BMP: hosts {(0,0)}, {(0,0),(0,0,2)}, {(0,0),(0,0,2),(1,3),"
               "(1,3,0),(0,5,1)} with symbolic cabinet, frame, board",
     "stubs": ["clock / select / socket: models/net.py, prompt fault-free "
@@ -124,8 +140,10 @@ META = {
               "(tag, decoded datagram) in sending order",
               "the machine: a subclass of models/machine.py that answers "
               "every command with RC_OK, a non-zero arg1, zero memory "
-              "(except sv.p2p_dims = 1x1) and payloads of the length each "
-              "command's caller unpacks; replies are concrete",
+              "(except sv.p2p_dims = 1x1; 12x12 in the discovery unit, where "
+              "chip-info of the three Ethernet chips reports link up and "
+              "IP 10.0.x.y) and payloads of the length each command's "
+              "caller unpacks; replies are concrete",
               "struct shim in packets, scp_connection, machine_controller, "
               "bmp_controller; bytearray / memoryview / bytes of "
               "scp_connection and machine_controller as in C07",
@@ -166,9 +184,11 @@ META = {
         "(documented)",
     ],
     "outside_claim": [
-        "discover_connections is driven on a 1x1 machine without Ethernet "
-        "link (no connection is added); boot() and get_machine() are not "
-        "decorated and not covered",
+        "discover_connections: 12x12 three-board machine with all links up "
+        "(plus, as one of the wiring methods, a 1x1 machine without "
+        "Ethernet link); failing trial commands / SCPError during "
+        "discovery, dead chips and larger machines are not explored; "
+        "boot() and get_machine() are not decorated and not covered",
         "the joint product of supply patterns over all arguments is "
         "explored for the representative methods listed; the other methods "
         "see every pattern per argument (rotation), not every combination",
@@ -267,12 +287,26 @@ def _machine_class():
     class AckMachine(Machine):
         """Acknowledges everything; replies are concrete."""
         # command -> (args, payload length)
-        REPLY = {26: ((1, 0, 0), 16), 31: ((18, 0, 0), 24), 48: ((), 48),
-                 22: ((1, 0, 0), 0)}
+        REPLY = {26: ((1, 0, 0), 16), 48: ((), 48), 22: ((1, 0, 0), 0)}
 
         def __init__(self, ctx, buffer_size=256):
             Machine.__init__(self, ctx, buffer_size=buffer_size)
             self.mem = {}
+            self.eth = {}       # Ethernet chip (x, y) -> its IP address
+
+        def cmd_31(self, q):
+            # chip info: arg1 = cores | links << 8 | ... | ethernet up << 25;
+            # payload 18 core states, local Ethernet chip, IP address
+            if (self.eth and not is_sym(q.dest_x) and not is_sym(q.dest_y)
+                    and (int(q.dest_x), int(q.dest_y)) in self.eth):
+                x, y = int(q.dest_x), int(q.dest_y)
+                octets = [int(o) for o in self.eth[(x, y)].split(".")]
+                addr = sum(o << (8 * i) for i, o in enumerate(octets))
+                return self.reply(q, args=(18 | (1 << 25), 0, 0),
+                                  data=bytes(18) + rs.pack("<HI",
+                                                           (x << 8) | y,
+                                                           addr))
+            return self.reply(q, args=(18, 0, 0), data=bytes(24))
 
         def reply(self, q, rc=RC_OK, args=(), data=b""):
             out = b"\0\0" + bytes(8) + rs.pack("<2H", rc, int(q.seq))
@@ -1112,7 +1146,6 @@ def h_conn_mc(ctx, row, dims, root, methods, menus):
     # mathematical integers: the board geometry is arithmetic modulo 12
     x, y = ctx.int("x", 0, w - 1), ctx.int("y", 0, h - 1)
     ctx.assume((y - ry) % 12 == row)
-    pl = plan(MC, name)
     with Env(ctx) as env:
         from rig.machine_control.scp_connection import SCPConnection
         mc = env.controller(MC)
@@ -1122,37 +1155,12 @@ def h_conn_mc(ctx, row, dims, root, methods, menus):
             mc._width, mc._height, mc._root_chip = w, h, (rx, ry)
         else:
             mc._root_chip = (rx, ry)
-        explicit = {"x": x, "y": y}
-        for a in pl.cargs:
-            if a not in explicit:
-                explicit[a] = 1
-        mark = len(env.wire)
-        outcome = "ok"
-        try:
-            if way == "kw":
-                pos, kw = pl.build(pl.lead, explicit)
-                getattr(mc, name)(*pos, **kw)
-            else:
-                rest = {a: v for a, v in explicit.items()
-                        if a not in ("x", "y")}
-                pos, kw = pl.build(pl.lead, rest)
-                with mc(x=x, y=y):
-                    getattr(mc, name)(*pos, **kw)
-        except Exception as e:
-            # numpy turns anything raised by __index__ (the table lookup of
-            # rig.geometry) into IndexError, the engine's control flow
-            # included: let a pending stop / timeout through
-            from sx import engine as _E
-            _E._poll_alarm()
-            outcome = type(e).__name__ + ": " + str(e)[:200]
-        sent = env.wire[mark:]
-        tags = sorted(set(t for t, _ in sent))
-        ctx.observe(name, outcome, len(sent), tags)
+        outcome, tags, nsent = _conn_call(ctx, env, mc, name, way, x, y)
+        ctx.observe(name, outcome, nsent, tags)
         if not ctx.prove(outcome == "ok" and len(tags) == 1, "call-failed",
                          (name, outcome, tags)):
             return
         tag = tags[0]
-        q = sent[0][1]
         items = []
         bx, by = board_of(x, y, rx, ry)
         ex, ey = bx % w, by % h
@@ -1173,6 +1181,159 @@ def h_conn_mc(ctx, row, dims, root, methods, menus):
                           if key else False,
                           "command-wrong-connection", detail))
         prove_all(ctx, items)
+
+
+def _conn_call(ctx, env, mc, name, way, x, y):
+    """One command to chip (x, y); returns (outcome, tags of its
+    datagrams)."""
+    pl = plan(MC, name)
+    explicit = {"x": x, "y": y}
+    for a in pl.cargs:
+        if a not in explicit:
+            explicit[a] = 1
+    mark = len(env.wire)
+    outcome = "ok"
+    try:
+        if way == "kw":
+            pos, kw = pl.build(pl.lead, explicit)
+            getattr(mc, name)(*pos, **kw)
+        else:
+            rest = {a: v for a, v in explicit.items() if a not in ("x", "y")}
+            pos, kw = pl.build(pl.lead, rest)
+            with mc(x=x, y=y):
+                getattr(mc, name)(*pos, **kw)
+    except Exception as e:
+        # numpy turns anything raised by __index__ (the table lookup of
+        # rig.geometry) into IndexError, the engine's control flow
+        # included: let a pending stop / timeout through
+        from sx import engine as _E
+        _E._poll_alarm()
+        outcome = type(e).__name__ + ": " + str(e)[:200]
+    sent = env.wire[mark:]
+    return outcome, sorted(set(t for t, _ in sent)), len(sent)
+
+
+def _conn_items(tag, ex, ey, cur, detail):
+    """`tag` is the socket for Ethernet chip (ex, ey) among the connections
+    registered NOW (cur: {chip: tag}), else the initial one."""
+    if tag == "initial":
+        return [(snot(sor(False, *[sand(ex == kx, ey == ky)
+                                   for kx, ky in cur])),
+                 "command-wrong-connection", detail)]
+    key = [k for k in cur if cur[k] == tag]
+    return [(sand(ex == key[0][0], ey == key[0][1]) if key else False,
+             "command-wrong-connection", detail)]
+
+
+@stoppable
+def h_conn_history(ctx, row, dims, root):
+    """The connection is chosen among those known AT THE TIME of sending:
+    commands to the same symbolic chip before and after a connection for a
+    board is registered (by assignment into mc.connections, as
+    discover_connections does), replaced, removed."""
+    from harness.c19 import board_of
+    w, h = dims
+    rx, ry = root
+    every = eth_chips(w, h, rx, ry)
+    rootb = (rx % w, ry % h)
+    # the board whose connection comes and goes: the root board (nothing
+    # else registered) or one of its two neighbours in the triad (every
+    # other board registered); between them they have chips in every row
+    k = ctx.pick((rootb, ((rx + 4) % w, (ry + 8) % h),
+                  ((rx + 8) % w, (ry + 4) % h)))
+    base = [] if k == rootb else [c for c in every if c != k]
+    script = ctx.pick((("call", "add", "call", "replace", "call", "remove",
+                        "call"),
+                       ("add", "call", "remove", "call", "add", "call")))
+    name, way = (("get_chip_info", "ctx") if script[0] == "call"
+                 else ("read", "kw"))
+    x, y = ctx.int("x", 0, w - 1), ctx.int("y", 0, h - 1)
+    ctx.assume((y - ry) % 12 == row)
+    bx, by = board_of(x, y, rx, ry)
+    ex, ey = bx % w, by % h
+    with Env(ctx) as env:
+        from rig.machine_control.scp_connection import SCPConnection
+        mc = env.controller(MC)
+        cur = {}
+        gen = [0]
+
+        def register(chip):
+            gen[0] += 1
+            cur[chip] = "eth-%d-%d#%d" % (chip + (gen[0],))
+            mc.connections[chip] = SCPConnection(cur[chip])
+        for b in base:
+            register(b)
+        mc._width, mc._height, mc._root_chip = w, h, (rx, ry)
+        for n, step in enumerate(script):
+            if step in ("add", "replace"):
+                register(k)
+            elif step == "remove":
+                mc.connections.pop(k).close()
+                del cur[k]
+            else:
+                outcome, tags, nsent = _conn_call(ctx, env, mc, name, way,
+                                                  x, y)
+                ctx.observe(n, name, outcome, nsent, tags)
+                if not ctx.prove(outcome == "ok" and len(tags) == 1,
+                                 "call-failed", (name, outcome, tags)):
+                    return
+                ctx.witness("fallback" if tags[0] == "initial"
+                            else "local-board")
+                if n > 0 and k in cur and tags[0] == cur[k]:
+                    ctx.witness("switched-to-new-connection")
+                prove_all(ctx, _conn_items(
+                    tags[0], ex, ey, cur,
+                    (n, script[:n], tags[0], (x, y), (ex, ey), dict(cur))))
+
+
+@stoppable
+def h_discover(ctx, rows):
+    """The real discover_connections() against a 12 x 12 machine of three
+    boards whose Ethernet chips (0,0), (4,8), (8,4) answer with their IP
+    address; afterwards a command to a symbolic chip travels over the
+    connection discovered for its board."""
+    from harness.c19 import board_of, ETH
+    w = h = 12
+    times = ctx.pick((1, 2))
+    name = ctx.pick(("get_chip_info", "read"))
+    way = "ctx" if name == "read" else "kw"
+    x, y = ctx.int("x", 0, w - 1), ctx.int("y", rows[0], rows[-1])
+    bx, by = board_of(x, y, 0, 0)
+    ex, ey = bx % w, by % h
+    with Env(ctx) as env:
+        mc = env.controller(MC)
+        sv = structs()[b"sv"]
+        env.machine.mem[sv.base + sv[b"p2p_dims"].offset] = b"\x0c\x0c"
+        env.machine.eth = {k: "10.0.%d.%d" % k for k in ETH}
+        ip = env.machine.eth
+        mark = len(env.wire)
+        outcome, found = "ok", []
+        try:
+            for _ in range(times):
+                found.append(mc.discover_connections())
+        except Exception as e:
+            outcome = type(e).__name__ + ": " + str(e)[:200]
+        keys = sorted((k for k in mc.connections if k is not None))
+        ctx.observe(outcome, found, keys, mc._width, mc._height)
+        if not ctx.prove(outcome == "ok", "call-failed", outcome):
+            return
+        ctx.prove(found == [3, 0][:times] and keys == sorted(ip) and
+                  (mc._width, mc._height) == (w, h),
+                  "discovery-wrong-result", (found, keys))
+        # the trial command on each new connection goes over that connection
+        trials = [(t, (int(q.dest_x), int(q.dest_y)))
+                  for t, q in env.wire[mark:] if int(q.cmd) == 0 and
+                  (int(q.dest_x), int(q.dest_y)) in ip]
+        ctx.prove(len(trials) == 3 and all(t == ip[c] for t, c in trials),
+                  "discovery-trial-not-over-new-connection", trials)
+        outcome, tags, nsent = _conn_call(ctx, env, mc, name, way, x, y)
+        ctx.observe(name, outcome, nsent, tags)
+        if not ctx.prove(outcome == "ok" and len(tags) == 1, "call-failed",
+                         (name, outcome, tags)):
+            return
+        ctx.witness("local-board")
+        prove_all(ctx, _conn_items(tags[0], ex, ey, ip,
+                                   (tags[0], (x, y), (ex, ey), times)))
 
 
 # ----------------------------------------------------------------------
@@ -1266,6 +1427,20 @@ def units(tier, seed):
                     ((36, 24), (8, 4)), ((48, 24), (0, 0))]
         methods = ("get_chip_info", "read", "write", "send_scp")
         menus = ("none", "all", "root", "not-root", "other", "unknown")
+    hist_machines = [((24, 12), (7, 3))] if quick else \
+        [((24, 12), (7, 3)), ((24, 24), (0, 0))]
+    for dims, root in hist_machines:
+        for row in range(12):
+            us.append(Unit(
+                "connection history %dx%d root %s row %d" % (
+                    dims + (root, row)),
+                h_conn_history, dict(row=row, dims=dims, root=root),
+                witnesses=("fallback", "local-board",
+                           "switched-to-new-connection")))
+    for rows in ((0, 1, 2), (3, 4, 5), (6, 7, 8), (9, 10, 11)):
+        us.append(Unit("discover_connections 12x12, then chip in rows "
+                       "%d..%d" % (rows[0], rows[-1]), h_discover,
+                       dict(rows=rows), witnesses=("local-board",)))
     for dims, root in machines:
         for row in range(12):
             us.append(Unit(
